@@ -1,6 +1,6 @@
-"""C43: testbench helpers call methods exactly once (TestbenchIO.call / call_try / call_result / call_do, CallTrigger, MethodMock.effect_process).
+"""C43: testbench helpers call methods exactly once (TestbenchIO.call / call_try / call_result / call_do, CallTrigger, the MethodMock processes).
 
-Three parts, joined by the equation `done_t = en_t & ready_t`:
+Four parts, joined by the equation `done_t = en_t & ready_t`:
 
 (a) Python half (E4).  The REAL coroutines `TestbenchIO.call`, `call_try`, `call_result`, `call_init`+`call_do`,
     `get_call_result`, `CallTrigger.__await__ / until_done / until_all_done` run on top of the REAL
@@ -31,11 +31,16 @@ Three parts, joined by the equation `done_t = en_t & ready_t`:
     and `_freeze` is False; `en` is lowered at the edge and set to the next `enable()` result only after
     `sim.delay(self.delay)`; the process awaits nothing but clock ticks and that delay and never finishes.
 
-OUTSIDE the claim: `MethodMock.output_process` and `validate_arguments_process` and the delta-cycle co-operation of the
-three processes under amaranth.sim (which evaluation of the mocked function is the last one before the edge, when
-`_freeze` takes effect relative to `done`): a stub of that scheduler would be this check's invention, and the real
-simulator concretises symbolic values.  So "effects exactly once per executed call" is established for
-`effect_process` given the effect list `output_process` left behind, plus the hardware half of the mock (b).
+(d) ALL THREE `MethodMock` processes together (E4).  The REAL `output_process`, `validate_arguments_process` (optional) and
+    `effect_process` coroutines of one real mock run over a stub of amaranth.sim's scheduler (order of events after
+    `PySimEngine.advance` / `step_design` / `_PyTriggerState`: processes to convergence before testbenches, pre-edge values at the
+    edge, next-cycle values of the caller visible right after the edge while `en` is still up, testbench `set` commits at once).
+    The caller's request and 3-bit argument are symbolic per cycle and per combinational phase.  Asserted per path: `done` at the
+    edge <=> enabled & requested & validated; exactly one effect is applied iff the method executed on that edge and it is the
+    effect registered for the EXECUTED call's argument (not for an earlier phase, not for the values that appear after the edge);
+    the value on `data_in` at the edge is the mocked function of that argument; the validator answer at the edge belongs to that
+    argument.  The stub is validated in every run against the real simulator (same mock, hardware caller fed from registers, random
+    traces): executed cycles, applied effects and returned values must coincide, otherwise the check ends with a harness error.
 """
 import z3
 
@@ -52,12 +57,14 @@ BOUNDS = {
     "quick": "readiness histories of 4 cycles (all 2^4, plus symbolic outputs) for call / call_do, 2 for call_try / call_result / get_call_result; "
              "CallTrigger with two calls + a sampled signal + a sampled (not called) method over 1 cycle, until_done / until_all_done with two calls "
              "over 3 cycles; output layouts: none, 2 bits, struct {2,1}; MethodMock.effect_process: 4 cycles, all done histories, 2 effect-count patterns x 3 enable() "
-             "patterns x delay {0, 1 ns}; netlist: argument / result widths 1..2, Adapter plain / validate_arguments / nonexclusive with 2 callers",
+             "patterns x delay {0, 1 ns}; netlist: argument / result widths 1..2, Adapter plain / validate_arguments / nonexclusive with 2 callers; all three mock processes: 3 cycles x 1 phase and 2 cycles x 2 phases, "
+             "3 enable() patterns, with / without validate_arguments, symbolic request and 3-bit argument per phase",
     "thorough": "readiness histories of 6 cycles (call / call_do), until_done / until_all_done over 4 cycles, two argument values per scenario; effect_process: 4 effect-count patterns x all 32 enable() patterns x 2 delays; "
-                "netlist widths 1..4",
+                "netlist widths 1..4; all three mock processes: up to 4 cycles x 1 phase, 3 cycles x 2 phases, 5 enable() patterns, 2 delays",
 }
-OUTSIDE = ["MethodMock.output_process / validate_arguments_process and the delta-cycle interplay of the three mock processes (which evaluation of the mocked "
-           "function fills the effect list that effect_process finds at the edge): depends on amaranth.sim scheduling of three coroutines; effect_process alone is inside",
+OUTSIDE = ["the co-operation of the three MethodMock processes is decided on a STUB of amaranth.sim's scheduler (part (d)); schedules the stub does not produce are "
+           "outside: more than two combinational phases per cycle, other testbenches changing the caller's inputs between the mock lowering and raising `en`, "
+           "several mocks whose effects feed each other's enable(), BrokenTrigger",
            "def_method_mock discovery, async_mock_def_helper argument passing",
            "the real simulation engine (pysim): replaced by a stub engine implementing the documented contract of set / get / tick().sample()",
            "resets during a call (DomainReset), several testbenches driving the same adapter, BrokenTrigger",
@@ -73,6 +80,11 @@ ASSUMES = ["stub engine: set_value takes effect immediately; awaiting a tick tri
            "effect_process scenario: `await sim.delay(x)` returns without a clock edge passing; the effect list found at edge t is what the harness registered during "
            "cycle t through MethodMock.effect (0..2 closures, fixed per configuration) and `_freeze` was set at the edge; enable() answers follow a fixed 0/1 "
            "pattern per configuration (real TestbenchContext.set needs concrete values); done_t = en_t & called_t with called_t symbolic",
+           "mock_procs scenario (d): stub scheduler after PySimEngine.advance/step_design: processes woken by changed/edge triggers run to convergence before any "
+           "testbench; an edge trigger delivers pre-edge values; after the edge the caller's next-cycle request/argument become visible while `en` is unchanged; "
+           "TestbenchContext.set commits at once and runs the woken processes; a process's set commits after the delta cycle; wake-ups over-approximated (every event "
+           "wakes every process); the mocked function has no side effect outside MethodMock.effect; the stub is co-simulated against the real amaranth.sim "
+           "(hardware caller driven from registers) on random traces in every run; enable() follows a fixed pattern, validate_arguments rejects one argument value",
            "netlist half: single clock domain, FSM-free designs, every pin (ready, request, argument, result, validator answer) is a free input"]
 TRUSTED = ["vf/pysym.py proxies and fork enumeration (path coverage is a solver query per scenario)", "amaranth.sim._async TickTrigger / TriggerCombination / "
            "TestbenchContext (real classes, executed)", "Amaranth 0.5 elaboration and NIR netlist construction", "vf/nir2smt.py translator (counterexamples replayed on amaranth.sim)", "z3 5.1.0"]
@@ -81,6 +93,8 @@ FUNCTIONS = ["transactron/testing/testbenchio.py:CallTrigger.__await__", "transa
              "transactron/testing/testbenchio.py:TestbenchIO.call", "transactron/testing/testbenchio.py:TestbenchIO.call_try", "transactron/testing/testbenchio.py:TestbenchIO.call_result",
              "transactron/testing/testbenchio.py:TestbenchIO.call_do", "transactron/testing/testbenchio.py:TestbenchIO.call_init", "transactron/testing/testbenchio.py:TestbenchIO.get_call_result",
              "transactron/testing/method_mock.py:MethodMock.effect_process", "transactron/testing/method_mock.py:MethodMock.effect",
+             "transactron/testing/method_mock.py:MethodMock.output_process", "transactron/testing/method_mock.py:MethodMock.validate_arguments_process",
+             "transactron/utils/transactron_helpers.py:async_mock_def_helper",
              "transactron/lib/adapters.py:AdapterTrans.elaborate", "transactron/lib/adapters.py:Adapter.elaborate"]
 W = 24
 LAYOUTS = {"none": [], "u2": [("y", 2)], "s21": [("a", 2), ("b", 1)]}
@@ -1040,7 +1054,88 @@ def _scenario_mock_procs(cfg, eng, env=None):
     return pattern, J.ob
 
 
+def _cosim_mock_procs(cfg, ctx, traces=6):
+    """Validation of the stub scheduler: the same real MethodMock under the REAL amaranth.sim (hardware caller whose request and
+    argument come from registers, i.e. change at the clock edge) and under the stub in concrete mode must apply the same effects,
+    execute in the same cycles and return the same values."""
+    import random
+    from amaranth import Elaboratable, Signal, Array, Const
+    from amaranth.sim import Simulator
+    from transactron import TModule, Transaction
+    from transactron.core import TransactronContextElaboratable
+    from transactron.lib import Adapter
+    from transactron.testing.method_mock import MethodMock
+
+    K, validate = cfg["K"], cfg["validate"]
+    if cfg["phases"] != 1:
+        return
+    rng = random.Random(ctx.seed * 7919 + ctx.index)
+    for tr in range(traces):
+        cs = [rng.random() < 0.7 for _ in range(K + 2)]
+        xs = [rng.randrange(8) if rng.random() < 0.8 else 5 for _ in range(K + 2)]
+        en_seq = [bool(x) for x in cfg["enable"]]
+        ncalls = [0]
+
+        def enable():
+            ncalls[0] += 1
+            return en_seq[ncalls[0] - 1] if ncalls[0] <= len(en_seq) else False
+
+        applied, rets = [], []
+
+        def func(x):
+            def eff(x=x):
+                applied.append(int(x))
+
+            MethodMock.effect(eff)
+            return {"y": (x + 1) & 3}
+
+        ad = Adapter(name="mocked", i=[("x", 3)], o=[("y", 2)])
+        mock = MethodMock(ad, func, validate_arguments=(lambda x: x != 5) if validate else None, enable=enable, delay=cfg["delay"])
+
+        class Circ(Elaboratable):
+            def elaborate(self, platform):
+                m = TModule()
+                m.submodules.ad = ad
+                tcnt = Signal(range(K + 3))
+                m.d.sync += tcnt.eq(tcnt + 1)
+                req, x = Signal(), Signal(3)
+                m.d.comb += [req.eq(Array(Const(int(c), 1) for c in cs)[tcnt]), x.eq(Array(Const(v, 3) for v in xs)[tcnt])]
+                with Transaction(name="caller").body(m, ready=req):
+                    ad.iface(m, x=x)
+                return m
+
+        sim = Simulator(TransactronContextElaboratable(Circ()))
+        sim.add_clock(1e-6)
+        sim.add_process(mock.output_process)
+        if validate:
+            sim.add_process(mock.validate_arguments_process)
+        sim.add_testbench(mock.effect_process, background=True)
+
+        async def tb(sctx):
+            for _ in range(K):
+                _, _, done, y = await sctx.tick().sample(ad.done, ad.data_in.y)
+                rets.append((int(done), int(y) if done else None))
+            await sctx.delay(2e-7)
+
+        sim.add_testbench(tb)
+        sim.run()
+        env = _DefaultEnv({f"called{t}_0": cs[t] for t in range(K + 1)})
+        env.update({f"arg{t}_0": xs[t] for t in range(K + 1)})
+        pattern, ob = _scenario_mock_procs(cfg, Engine(width=W), env)
+        bad = [lab for lab, g in ob if z3.is_false(z3.simplify(g))]
+        real_pattern = "".join("X" if d else "-" for d, _ in rets)
+        want_applied = [xs[t] for t in range(K) if rets[t][0]]
+        want_rets = [(1, (xs[t] + 1) & 3) if rets[t][0] else (0, None) for t in range(K)]
+        ctx.cosim_traces += 1
+        ctx.cosim_points += K
+        if bad or real_pattern != pattern or applied != want_applied or rets != want_rets:
+            ctx.errors.append(f"C43 stub scheduler vs amaranth.sim: called={cs} args={xs} cfg={cfg}: real executed {real_pattern} effects {applied} results {rets}; "
+                              f"stub executed {pattern}, failed obligations {bad[:3]}")
+
+
 def _run_py(cfg, ctx):
+    if cfg["scen"] == "mock_procs":
+        _cosim_mock_procs(cfg, ctx)
     eng = Engine(width=W, max_paths=5000)
     paths = eng.run(lambda e: _scenario(cfg, e))
     ctx.solver_time += eng.solver_time
